@@ -110,6 +110,47 @@ func (s *followerReplication) notifyAll(leader bool) {
 	}
 }
 
+// waitingNotify returns the verify futures that wait for this follower right
+// now. Only a request sent from now on can vouch for them: a response to a
+// request that was already in flight when VerifyLeader was called says nothing
+// about our leadership at the time of the call.
+func (s *followerReplication) waitingNotify() []*verifyFuture {
+	s.notifyLock.Lock()
+	defer s.notifyLock.Unlock()
+	if len(s.notify) == 0 {
+		return nil
+	}
+	waiting := make([]*verifyFuture, 0, len(s.notify))
+	for v := range s.notify {
+		waiting = append(waiting, v)
+	}
+	return waiting
+}
+
+// notifyWaiting submits our vote for those of the given verify futures that
+// still wait for this follower.
+func (s *followerReplication) notifyWaiting(waiting []*verifyFuture, leader bool) {
+	if len(waiting) == 0 {
+		return
+	}
+
+	// Stop tracking them, minimizing lock time
+	s.notifyLock.Lock()
+	n := waiting[:0:0]
+	for _, v := range waiting {
+		if _, ok := s.notify[v]; ok {
+			delete(s.notify, v)
+			n = append(n, v)
+		}
+	}
+	s.notifyLock.Unlock()
+
+	// Submit our votes
+	for _, v := range n {
+		v.vote(leader)
+	}
+}
+
 // cleanNotify is used to delete notify, .
 func (s *followerReplication) cleanNotify(v *verifyFuture) {
 	s.notifyLock.Lock()
@@ -205,6 +246,7 @@ func (r *Raft) replicateTo(s *followerReplication, lastIndex uint64) (shouldStop
 	var resp AppendEntriesResponse
 	var start time.Time
 	var peer Server
+	var waiting []*verifyFuture
 
 START:
 	// Prevent an excessive retry rate on errors
@@ -225,6 +267,9 @@ START:
 	} else if err != nil {
 		return
 	}
+
+	// The verifications this request can answer
+	waiting = s.waitingNotify()
 
 	// Make the RPC call
 	start = time.Now()
@@ -248,6 +293,9 @@ START:
 	if resp.Success {
 		// Update our replication state
 		updateLastAppended(s, &req)
+
+		// Notify still leader
+		s.notifyWaiting(waiting, true)
 
 		// Clear any failures, allow pipelining
 		s.failures = 0
@@ -339,6 +387,10 @@ func (r *Raft) sendLatestSnapshot(s *followerReplication) (bool, error) {
 	s.peerLock.RUnlock()
 
 	r.logger.Info("installing snapshot on", "peer", peer.ID, "id", snapID, "size", req.Size)
+
+	// The verifications this request can answer
+	waiting := s.waitingNotify()
+
 	// Make the call
 	start := time.Now()
 	var resp InstallSnapshotResponse
@@ -374,7 +426,7 @@ func (r *Raft) sendLatestSnapshot(s *followerReplication) (bool, error) {
 		s.failures = 0
 
 		// Notify we are still leader
-		s.notifyAll(true)
+		s.notifyWaiting(waiting, true)
 	} else {
 		s.failures++
 		r.logger.Warn("installSnapshot rejected to", "peer", peer.ID, "id", snapID)
@@ -408,6 +460,9 @@ func (r *Raft) heartbeat(s *followerReplication, stopCh chan struct{}) {
 		peer := s.peer
 		s.peerLock.RUnlock()
 
+		// The verifications this heartbeat can answer
+		waiting := s.waitingNotify()
+
 		start := time.Now()
 		if err := r.trans.AppendEntries(peer.ID, peer.Address, &req, &resp); err != nil {
 			nextBackoffTime := cappedExponentialBackoff(failureWait, failures, maxFailureScale, r.config().HeartbeatTimeout/2)
@@ -434,7 +489,11 @@ func (r *Raft) heartbeat(s *followerReplication, stopCh chan struct{}) {
 				metrics.MeasureSince([]string{"raft", "replication", "heartbeat", string(peer.ID)}, start)
 			}
 
-			s.notifyAll(resp.Success)
+			if resp.Success {
+				s.notifyWaiting(waiting, true)
+			} else {
+				s.notifyAll(false)
+			}
 		}
 	}
 }
@@ -558,7 +617,10 @@ func (r *Raft) pipelineDecode(s *followerReplication, p AppendPipeline, stopCh, 
 				return
 			}
 
-			// Update our replication state
+			// Update our replication state. A pipelined request may have
+			// been sent before a pending VerifyLeader was called, so it
+			// does not vouch for anything: verifyLeader forces a heartbeat
+			// of its own.
 			updateLastAppended(s, req)
 		case <-stopCh:
 			return
@@ -659,7 +721,4 @@ func updateLastAppended(s *followerReplication, req *AppendEntriesRequest) {
 		atomic.StoreUint64(&s.nextIndex, last.Index+1)
 		s.commitment.match(s.peer.ID, last.Index)
 	}
-
-	// Notify still leader
-	s.notifyAll(true)
 }
